@@ -13,7 +13,10 @@ class Module(object):
         self.path = os.path.join(root, rel)
         with open(self.path, 'rb') as f:
             self.source = f.read().decode('utf-8', 'replace')
-        self.tree = ast.parse(self.source, filename=rel)
+        import warnings
+        with warnings.catch_warnings():
+            warnings.simplefilter('ignore')
+            self.tree = ast.parse(self.source, filename=rel)
         for node in ast.walk(self.tree):
             for child in ast.iter_child_nodes(node):
                 child._parent = node
@@ -126,6 +129,10 @@ class Program(object):
                     self.functions[(rel, st.name)] = FuncInfo(m, st)
         for ci in self.classes.values():
             ci.mro = self._mro(ci, set())
+        for lst in self.class_dups.values():
+            for ci in lst:
+                if not ci.mro:
+                    ci.mro = self._mro(ci, set())
 
     @staticmethod
     def is_core(rel):
@@ -155,9 +162,17 @@ class Program(object):
             raise AnalysisError('class not found: ' + name)
         return c
 
-    def subclasses(self, name, include_self=True):
+    def all_classes(self):
+        out = list(self.classes.values())
+        for lst in self.class_dups.values():
+            for ci in lst:
+                if ci not in out:
+                    out.append(ci)
+        return out
+
+    def subclasses(self, name, include_self=True, with_dups=False):
         out = []
-        for ci in self.classes.values():
+        for ci in (self.all_classes() if with_dups else self.classes.values()):
             if any(c.name == name for c in ci.mro):
                 if include_self or ci.name != name:
                     out.append(ci)
